@@ -85,6 +85,25 @@ class Valuation(object):
                 for a in args:
                     v |= a
                 return v
+            if e.op == ">>" and len(args) == 2:
+                return (args[0] >> args[1]) & m if args[1] < e.size else 0
+            if e.op == "<<" and len(args) == 2:
+                return (args[0] << args[1]) & m if args[1] < e.size else 0
+            if e.op == "a>>" and len(args) == 2:
+                sign = args[0] >> (e.size - 1)
+                sh = min(args[1], e.size)
+                v = args[0] >> sh
+                if sign:
+                    v |= (m >> (e.size - sh)) << (e.size - sh) if sh else 0
+                return v & m
+            if e.op.startswith("zeroExt_"):
+                return args[0]
+            if e.op.startswith("signExt_"):
+                src = e.args[0].size
+                v = args[0]
+                if v >> (src - 1):
+                    v |= m ^ ((1 << src) - 1)
+                return v & m
         raise HarnessError("evaluator does not know %r" % e)
 
 
